@@ -16,6 +16,7 @@
 #include <AIToolbox/Bandit/Experience.hpp>
 #include <AIToolbox/Bandit/Policies/ThompsonSamplingPolicy.hpp>
 #include <AIToolbox/Bandit/Policies/TopTwoThompsonSamplingPolicy.hpp>
+#include <AIToolbox/Bandit/Policies/T3CPolicy.hpp>
 #undef private
 #undef protected
 
@@ -44,6 +45,7 @@ void c09_thompson(const std::string & kind, vio::Cursor & c, vio::Out & o) {
     Bandit::Experience exp(A);
     for (size_t k = 0; k < nrec; ++k) { size_t a = c.nextSize(); double r = c.nextDouble(); exp.record(a, r); }
     const double beta = c.nextDouble();
+    const double var = (kind == "t3c") ? c.nextDouble() : 1.0;
     const unsigned seed = (unsigned) c.nextSize();
     const size_t nsamp = c.nextSize();
     Seeder::setRootSeed(seed);
@@ -53,6 +55,21 @@ void c09_thompson(const std::string & kind, vio::Cursor & c, vio::Out & o) {
         o << nsamp;
         for (size_t k = 0; k < nsamp; ++k) {
             o.list(replayVals(exp, p.rand_));
+            o << p.sampleAction();
+        }
+    } else if (kind == "t3c") {
+        // T3C: Thompson leader from the private policy_, then Bernoulli(beta) and the tie-breaking
+        // Bernoulli(1/k) draws from the policy's own engine: each consumes one canonical uniform
+        Bandit::T3CPolicy p(exp, beta, var);
+        o.list(exp.getRewardMatrix());
+        o << nsamp;
+        for (size_t k = 0; k < nsamp; ++k) {
+            o.list(replayVals(exp, p.policy_.rand_));
+            RandomEngine outer = p.rand_;
+            std::uniform_real_distribution<double> pd(0.0, 1.0);
+            std::vector<double> us;
+            for (size_t i = 0; i < A + 1; ++i) us.push_back(pd(outer));
+            o.list(us);
             o << p.sampleAction();
         }
     } else {                                            // tt, ttn
